@@ -35,6 +35,7 @@ func C04(c *core.Ctx) {
 	c04Sources(c)
 	blindFields(c, "C04-R4")
 	schemaObjectRule(c, "C04-R4")
+	c04Stale(c)
 	c04ScenarioNotes(c)
 	c04ReadOnly(c)
 	_ = p
